@@ -59,6 +59,9 @@ func Size(r *hx.Rand, max, hdr, fu, agg, minLen int) int {
 		n = max - agg - 2 + r.Range(-8, 8)
 	case 3, 4: // multiples of the fragment size
 		k := r.Range(1, 4)
+		if max > 3000 {
+			k = 1
+		}
 		n = k*avail + hdr + r.Range(-8, 8)
 	case 5:
 		n = r.Range(minLen, 3*max+8)
@@ -72,8 +75,8 @@ func Size(r *hx.Rand, max, hdr, fu, agg, minLen int) int {
 	if n < minLen {
 		n = minLen
 	}
-	if n > 30000 {
-		n = 30000
+	if n > 12000 {
+		n = 12000 - r.Intn(17) // keeps the extracted model fast; thresholds of large limits are hit with k = 1
 	}
 	return n
 }
